@@ -67,10 +67,11 @@ def shift_range(refseq, pos, ref, alt):
 
 
 class Variant:
-    __slots__ = ("pos", "ref", "alt", "kind", "shift")
+    __slots__ = ("pos", "ref", "alt", "kind", "shift", "hid")
 
     def __init__(self, pos, ref, alt, kind, shift=0):
         self.pos, self.ref, self.alt, self.kind, self.shift = pos, ref, alt, kind, shift
+        self.hid = False  # True: an unrelated variant that is never written to the VCF
 
     @property
     def end(self):  # end of the VCF footprint (exclusive)
@@ -287,6 +288,27 @@ def simulate(rng, tmp, p):
         sim.windows[c] = windows
         refseq = random_reference(rng, L)
         vs = random_variants(rng, refseq, p.get("n_var", 12), kinds, p.get("min_gap", 30), p.get("margin", 40), p.get("allow_shiftable", True), windows=windows)
+        if p.get("companions"):
+            # unrelated (never in the VCF) indels 1-7 reference bases next to an SNV, on either side
+            extra = []
+            for v in vs:
+                if v.kind != "snv" or rng.random() >= p["companions"]:
+                    continue
+                ck, k, side, dd = rng.choice(["ins", "del"]), rng.randint(1, 6), rng.choice([-1, 1]), rng.randint(1, 7)
+                if ck == "ins":
+                    q = v.pos - dd if side < 0 else v.pos + dd
+                    if not (5 <= q < L - 5):
+                        continue
+                    w = Variant(q, refseq[q], refseq[q] + "".join(rng.choice(BASES) for _ in range(k)), "ins")
+                else:
+                    q = v.pos - dd - k if side < 0 else v.pos + dd
+                    if not (5 <= q and q + k + 1 < L - 5):
+                        continue
+                    w = Variant(q, refseq[q : q + k + 1], refseq[q], "del")
+                w.shift = shift_range(refseq, w.pos, w.ref, w.alt)
+                w.hid = True
+                extra.append(w)
+            vs = sorted(vs + extra, key=lambda v: v.pos)
         sim.ref[c] = refseq
         sim.variants[c] = vs
         nv = len(vs)
@@ -493,6 +515,10 @@ def simulate(rng, tmp, p):
             for i in range(len(sim.variants[c])):
                 if rng.random() < p["hidden_frac"]:
                     sim.hidden[c].add(i)
+    for c in sim.chroms:
+        for i, v in enumerate(sim.variants[c]):
+            if v.hid:
+                sim.hidden[c].add(i)
     for c in sim.chroms:
         for i, v in enumerate(sim.variants[c]):
             if i in sim.hidden[c]:
